@@ -30,7 +30,8 @@ func init() { core.Register(c15{}) }
 
 func (c15) ID() string { return "C15" }
 
-var c15Methods = []string{"GET", "HEAD", "POST", "PUT", "PATCH", "DELETE", "OPTIONS"}
+// methods are case-sensitive tokens (RFC 9110): "get" and "Head" are not GET and HEAD
+var c15Methods = []string{"GET", "HEAD", "POST", "PUT", "PATCH", "DELETE", "OPTIONS", "get", "Head"}
 
 var c15ContentTypes = []string{"", "application/json", "application/json; charset=utf-8", "application/json;charset=UTF-8", "Application/JSON", "application/json ; charset=utf-8", " application/json",
 	"application/x-www-form-urlencoded", "application/x-www-form-urlencoded; charset=utf-8", "APPLICATION/X-WWW-FORM-URLENCODED", "text/plain", "multipart/form-data; boundary=x", "application/jsonx", "application/x-json", "json",
@@ -51,6 +52,8 @@ func c15Bodies() []string {
 	out = append(out, c15JSON, `[1,2]`, `"str"`, `12`, `null`, `true`, `{}`, ` {} `, `{"src":null}`, `{"src":"json","list":"scalar","num":"9"}`, `{"list":[]}`, `{"nested":"x"}`, `{"nested":{}}`,
 		// a well-formed object holding a number no float64 can hold: undecodable as a whole (one invalid_json, nothing runs)
 		`{"src":"json-body","num":1e400}`, `{"src":"json-body","nested":{"v":"x","big":-1e999},"list":["a"]}`, `{"src":"json-body","num":9007199254740993}`, `{"src":"json-body","list":["a",1e999]}`, `{"src":"json-body","list":[null,{"deep":[true,-1e400]}]}`, `{"list":["a","b"],"src":"json-body","nested":{"v":"x"}}`,
+		// white space around a JSON value is space, tab, line feed and carriage return
+		c15JSON + "\r\n", "{}\r\n", "\r\n\t " + c15JSON + " \t\r\n\r", "{}\r",
 		c15Form, c15Multipart, `src=%zz`, `src=ok&bad=%`, `src=a;only_b=b`, ``, `src=`, `list=one`, `arr[]=`, `arr[]=x&arr[]=y`, `src=+sp+&list=a%20b`, `&&=&`)
 	return out
 }
@@ -195,7 +198,7 @@ func c15Request(c *core.Ctx, n *spec.Node, method, ct, body, query string) bool 
 	prior := gen.Prefill(c.R, n, true)
 	preParsed := false
 	if kind == "form" {
-		if _, _, err := mime.ParseMediaType(ct); err != nil {
+		if _, _, err := mime.ParseMediaType(ct); err != nil && !decodeErr {
 			// "the form as net/http defines it": net/http itself refuses to parse a form whose Content-Type parameters are malformed; not judged
 			c.Count("skipped_open_corner", 1)
 			return true
